@@ -68,6 +68,7 @@ fn main() {
                 Some("batch") => world_engine::Profile::Batch,
                 Some("query") => world_engine::Profile::Query,
                 Some("containers") => world_engine::Profile::Containers,
+                Some("tracker") => world_engine::Profile::Tracker,
                 _ => world_engine::Profile::Mixed,
             };
             let out = arg(&args, "--out").expect("--out DIR");
@@ -80,7 +81,7 @@ fn main() {
                 let hseed = seed.wrapping_mul(1_000_003).wrapping_add(k as u64);
                 let mut g = world_engine::Gen::new(hseed, profile);
                 let l = len / 2 + g.rng.below(len + 1);
-                let nworlds = if g.rng.chance(35) { 2 } else { 1 };
+                let nworlds = if profile != world_engine::Profile::Tracker && g.rng.chance(35) { 2 } else { 1 };
                 writeln!(trace, "history world {}", hseed).unwrap();
                 writeln!(ops, "history world {}", hseed).unwrap();
                 trace.flush().unwrap();
